@@ -65,6 +65,11 @@ def _node_content(R: Draw, g: DocGen, inline_ok: bool = True) -> list[dict]:
             out.append(g.node(R, t, 1, 4))
     from .mutate import normalize_children
 
+    if R.bool(0.08):
+        # the list form of the API takes unmerged neighbours too: three text nodes with the same marks (Fragment.from_
+        # has to join them)
+        ms = g.mark_set(R, rs.top, 0.0)
+        return [P.mk("text", {}, None, ms, g.text(R)) for _ in range(3)]
     return normalize_children(out)
 
 
@@ -136,7 +141,19 @@ def gen_op(R: Draw, g: DocGen, lib: Any, doc_node: Any, kinds: list[str] | None 
             a = R.int(pos + 1, pos + nd.node_size - 1)
             b = R.int(a, min(pos + nd.node_size - 1, a + R.int(0, 3)))
             if kind in ("replace_with", "insert"):
-                return {"op": kind, "from": a, "to": b, "content": [piece]} if kind == "replace_with" else {"op": kind, "pos": a, "content": [piece]}
+                pieces = [piece]
+                if R.bool(0.5):
+                    # several neighbours that differ ONLY in forbidden marks: once those are stripped they are equal
+                    # and have to be joined into one text node
+                    keep = [m for m in ms if m[0] not in forb]
+                    for _ in range(R.int(1, 3)):
+                        extra: list = list(keep)
+                        for m in R.shuffle(list(forb)):
+                            if R.bool(0.6):
+                                extra = rm.ref_add(rs, g.mark(R, m), extra)
+                        if extra != pieces[-1]["m"]:
+                            pieces.append(P.mk("text", {}, None, extra, g.text(R)))
+                return {"op": kind, "from": a, "to": b, "content": pieces} if kind == "replace_with" else {"op": kind, "pos": a, "content": pieces}
             hosts = [t for t in rs.node_names if rs.textblock.get(t) and all(rs.allows_mark(t, m[0]) for m in ms) and rs.generatable[t]]
             if hosts and R.bool(0.5):
                 h = R.choice(hosts)
